@@ -338,8 +338,7 @@ struct ScriptedGeo
     {
         w->tick();
         w->calls.push_back(json::array({"MoveI", w->q(dist)}));
-        for (int i = 0; i < 3; ++i)
-            w->pos[i] += dist * w->dir[i];
+        w->pos[0] += dist;  // 1-D world: distances are measured along x, the direction is a label
         w->next_d -= dist;
         w->onb = false;
     }
@@ -347,8 +346,7 @@ struct ScriptedGeo
     {
         w->tick();
         w->calls.push_back(json::array({"MoveB"}));
-        for (int i = 0; i < 3; ++i)
-            w->pos[i] += w->next_d * w->dir[i];
+        w->pos[0] += w->next_d;  // 1-D world: distances are measured along x, the direction is a label
         w->onb = true;
         w->has_next = w->next_b = false;
     }
